@@ -4,7 +4,7 @@ SUBCMD = "sim"
 IS_TRACE = True
 RUN = "monitor"
 SHARD = 6
-TAGS = {1, 2, 3, 4, 5, 6, 8, 10, 12, 13, 15}
+TAGS = {1, 2, 3, 4, 5, 6, 8, 10, 11, 12, 13, 15}
 RULE = ("lifecycle scenarios: close() by client/server/both/nobody at a random instant of handshake or transfer (incl. "
         "window-limited senders), peer silent from a random datagram on (one or both directions), close packets lost/duplicated, idle "
         "timeout and keep-alive settings, close() in the very iteration in which a chosen timer (loss detection, keep-alive, CID rotation, ack delay) expired, server process restart (genuine stateless resets, also to a client that is already closing), idle timeout renegotiated on 0-RTT resumption (remembered vs actual peer value: none, larger, smaller), late timers; non-trivial = at least one connection reached Drained")
@@ -82,7 +82,28 @@ def gen(rng, n):
             d["IDLE_MS"] = rng.choice([1000, 3000])
             d["MAX_TIME"] = 15_000_000
             d.pop("RETRY", None)
-        if rng.chance(1, 8) and not d.get("ZERO_RTT") and "FORGET_AT" not in d:
+        if rng.chance(1, 10) and not d.get("ZERO_RTT") and "FORGET_AT" not in d:
+            # every identifier of a drained connection stops routing - also the one issued with the
+            # server's preferred address: the client switches to it (address change), the connection
+            # closes, and its old datagrams are replayed afterwards
+            d["PREFERRED_ADDR"] = 1
+            d["NCONNS"] = 1
+            d["DELAY_MIN"] = d["DELAY_MAX"] = rng.choice([5000, 10000])
+            d["STREAM_BYTES"] = 20000
+            d["WRITE_CHUNK"] = 100000
+            d["READ_MAX"] = 100000
+            d["NBIDI"] = 1
+            d["MIGRATE_AT"] = rng.choice([40000, 60000])
+            d["MIGRATE_KIND"] = rng.below(2)
+            d["CLOSER"] = rng.choice([0, 1])
+            d["CLOSE_AT"] = rng.choice([200000, 400000])
+            d["REPLAY"] = rng.choice([300, 600])
+            d["IDLE_MS"] = 3000
+            d["MAX_TIME"] = 8_000_000
+            d.pop("RETRY", None)
+            if d.get("CID_LEN") == 0:
+                d["CID_LEN"] = 8
+        if rng.chance(1, 8) and not d.get("ZERO_RTT") and "FORGET_AT" not in d and "PREFERRED_ADDR" not in d:
             # adversarial scheduling: the application closes in the very driver iteration in which a
             # given timer of its connection expired (after handle_timeout, before the endpoint's answers)
             d["CLOSE_ON_TIMER"] = rng.choice([1, 6, 8, 8, 9])
@@ -137,7 +158,8 @@ describe = S.describe
 
 
 def classify(case, outs):
-    """Known finding `lost-after-local-close`: ConnectionLost{Reset} reported after a local close()."""
+    """Known finding `lost-after-local-close`: ConnectionLost{Reset} reported although the connection was already
+    closed - after a local close(), or a second report after the peer's close had been reported."""
     closed = set()
     lost = set()
     for r in outs:
@@ -145,7 +167,7 @@ def classify(case, outs):
             closed.add((r[2], r[3]))
         elif r[0] == 4 and r[4] == 3:
             k = (r[2], r[3])
-            if k in closed and k not in lost and r[5] == 5:
+            if (k in closed or k in lost) and r[5] == 5:
                 return "lost-after-local-close"
             lost.add(k)
     return None
